@@ -71,7 +71,36 @@ func (e *Env) anchors() *anchors {
 	if wf := p.Named("scipipe", "Workflow"); wf != nil {
 		if st, ok := wf.Underlying().(*types.Struct); ok {
 			var chans, mxs []*types.Var
-			for i := 0; i < st.NumFields(); i++ {
+			// the fields of Workflow itself and of the module's struct types it embeds or holds (a slot pool factored
+			// out into a type of its own is still "the workflow's slot channel")
+			var scan func(st *types.Struct, depth int)
+			seenT := map[*types.Struct]bool{}
+			scan = func(st *types.Struct, depth int) {
+				if seenT[st] || depth > 2 {
+					return
+				}
+				seenT[st] = true
+				for i := 0; i < st.NumFields(); i++ {
+					f := st.Field(i)
+					if _, ok := f.Type().Underlying().(*types.Chan); ok {
+						chans = append(chans, f)
+					}
+					if f.Type().String() == "sync.Mutex" || f.Type().String() == "*sync.Mutex" {
+						mxs = append(mxs, f)
+					}
+					ft := f.Type()
+					if pt, ok := ft.Underlying().(*types.Pointer); ok {
+						ft = pt.Elem()
+					}
+					if nt, ok := ft.(*types.Named); ok && nt.Obj().Pkg() != nil && nt.Obj().Pkg().Path() == core.LibPkgs[0] && nt.Obj().Name() != "Sink" && !types.Implements(types.NewPointer(nt), wfProcIface(p)) {
+						if sub, ok := nt.Underlying().(*types.Struct); ok {
+							scan(sub, depth+1)
+						}
+					}
+				}
+			}
+			scan(st, 0)
+			for i := 0; i < 0; i++ {
 				f := st.Field(i)
 				if _, ok := f.Type().Underlying().(*types.Chan); ok {
 					chans = append(chans, f)
@@ -161,6 +190,67 @@ func (e *Env) anchors() *anchors {
 						}
 					}
 				}
+			}
+		}
+	}
+	// acquire / release by role: in Task.Execute's expanded call tree, the deepest function whose sub-tree holds
+	// every slot send together with every Lock of a candidate slot mutex (resp. every slot receive). This is the
+	// exported API on the pinned tree, a helper of a factored-out slot type after a refactoring, and stays the
+	// function that owns the token loop when single sends are extracted into helpers.
+	if a.slotField != nil && a.execute != nil {
+		if g := a.e.XG(a.execute); g != nil {
+			lca := func(pred func(n *core.Node) bool) *ssa.Function {
+				var common []*core.Ctx
+				first := true
+				for _, n := range g.Nodes {
+					if n.Kind == core.KAfter || !pred(n) {
+						continue
+					}
+					// a token operation counts at the function that owns the loop around it (the helper that performs a
+					// single send or receive is below that function)
+					at := n
+					if las := g.EnclLoops(n); len(las) > 0 {
+						at = las[0].At
+					}
+					var chain []*core.Ctx
+					for c := at.Ctx; c != nil; c = c.Parent {
+						chain = append([]*core.Ctx{c}, chain...)
+					}
+					if first {
+						common, first = chain, false
+						continue
+					}
+					k := 0
+					for k < len(common) && k < len(chain) && common[k] == chain[k] {
+						k++
+					}
+					common = common[:k]
+				}
+				if len(common) <= 1 {
+					return nil // nothing found, or only Execute itself in common
+				}
+				return common[len(common)-1].Fn
+			}
+			isMxLock := func(n *core.Node) bool {
+				if !n.IsCallTo("(*sync.Mutex).Lock") || len(n.Call.Args) == 0 {
+					return false
+				}
+				fa, ok := n.Call.Args[0].(*ssa.FieldAddr)
+				if !ok {
+					return false
+				}
+				for _, m := range a.mxCands {
+					if fieldOfAddr(fa) == m {
+						return true
+					}
+				}
+				return false
+			}
+			if f := lca(func(n *core.Node) bool { return a.isSlotSend(n) || (isMxLock(n) && inAcquireSide(g, n, a)) }); f != nil {
+				a.acquire = []*ssa.Function{f}
+			}
+			if f := lca(a.isSlotRecv); f != nil {
+				a.release = []*ssa.Function{f}
 			}
 		}
 	}
@@ -375,7 +465,7 @@ func (e *Env) argSym(n *core.Node, i int) *core.Sym {
 func (e *Env) xsym() *core.Symbolizer {
 	if e.xs == nil {
 		e.xs = e.P.NewSymbolizer(func(f *ssa.Function) bool {
-			if f.Object() != nil && f.Object().Exported() {
+			if !isPrivateFunc(f) {
 				return false
 			}
 			n := 0
@@ -392,7 +482,7 @@ func (e *Env) xsym() *core.Symbolizer {
 // such as timestamps that a refactoring may route through a large helper).
 func (e *Env) fsym() *core.Symbolizer {
 	if e.fs == nil {
-		e.fs = e.P.NewSymbolizer(func(f *ssa.Function) bool { return f.Object() == nil || !f.Object().Exported() })
+		e.fs = e.P.NewSymbolizer(isPrivateFunc)
 		e.fs.MaxDepth = 10
 	}
 	return e.fs
@@ -432,4 +522,49 @@ func elemOfField(s *core.Sym) string {
 		return out == ""
 	})
 	return out
+}
+
+// wfProcIface: the WorkflowProcess interface (an empty interface when it cannot be found).
+func wfProcIface(p *core.Prog) *types.Interface {
+	if wp := p.Named("scipipe", "WorkflowProcess"); wp != nil {
+		if it, ok := wp.Underlying().(*types.Interface); ok {
+			return it
+		}
+	}
+	return types.NewInterfaceType(nil, nil)
+}
+
+// inAcquireSide: a Lock of a candidate slot mutex counts for the acquire anchor only when a slot send can follow
+// it (a mutex of the same type locked elsewhere in Execute's tree has nothing to do with the slots).
+func inAcquireSide(g *core.XG, n *core.Node, a *anchors) bool {
+	reach := g.ReachableFrom(n, nil)
+	for m := range reach {
+		if a.isSlotSend(m) {
+			// only locks in the same calling context chain as a send: the lock's function is an ancestor-or-self
+			for c := m.Ctx; c != nil; c = c.Parent {
+				if c == n.Ctx {
+					return true
+				}
+			}
+		}
+	}
+	return false
+}
+
+// isPrivateFunc: not part of the module's exported API: an unexported function or method, a function literal,
+// or a method (whatever its name) of an unexported type.
+func isPrivateFunc(f *ssa.Function) bool {
+	if f.Object() == nil || !f.Object().Exported() {
+		return true
+	}
+	if recv := f.Signature.Recv(); recv != nil {
+		t := recv.Type()
+		if pt, ok := t.(*types.Pointer); ok {
+			t = pt.Elem()
+		}
+		if nt, ok := t.(*types.Named); ok && !nt.Obj().Exported() {
+			return true
+		}
+	}
+	return false
 }
